@@ -78,6 +78,111 @@ def naive_usage_bits(mapping, p):
     return best
 
 
+# ---------------------------------------------------------------- independent witness for pairs the join rejects (2-Einsum chains)
+def concrete_nodes(pm, e, single):
+    """the single pmapping as [('sto', component, [tensors]) | ('loop', rank variable, tile)] with its row's tile shapes; None if outside the class"""
+    data = single.mappings.data
+    obj = pm.pmapping_objects[e][data[f"{e}<SEP>mapping"].iloc[0]]
+    out = []
+    for n in obj.nodes:
+        cls = type(n).__name__
+        if cls == "Storage":
+            out.append(("sto", str(n.component), [str(t) for t in n.tensors]))
+        elif cls == "Temporal":
+            ts = n.tile_shape
+            try:
+                ts = int(ts)
+            except Exception:  # noqa
+                col = f"{e}<SEP>{getattr(ts, 'name', str(ts))}"
+                if col not in data.columns:
+                    return None
+                ts = int(round(float(data[col].iloc[0])))
+            out.append(("loop", str(n.rank_variable), ts))
+        elif cls in ("Reservation", "Compute"):
+            continue
+        else:
+            return None
+    return out
+
+
+def split_at_shared(nodes, shared, ranks):
+    """(top, bottom) around the FIRST non-MainMemory holder of the shared tensor; trivial (one-iteration) loops removed; None if the
+       shared tensor is first held in MainMemory or never held in a buffer"""
+    tile = dict(ranks)
+    clean = []
+    for n in nodes:
+        if n[0] == "loop":
+            if n[2] == tile[n[1]]:
+                continue
+            tile[n[1]] = n[2]
+        clean.append(n)
+    for i, n in enumerate(clean):
+        if n[0] == "sto" and shared in n[2]:
+            if n[1] == "MainMemory":
+                continue
+            if len(n[2]) != 1:
+                return None
+            if any(x[0] == "sto" and x[1] == "MainMemory" and shared in x[2] for x in clean[:i]):
+                return None           # backed by MainMemory: unfused
+            return clean[:i], clean[i + 1:], n[1]
+    return None
+
+
+def witness_yaml(p, a_nodes, b_nodes):
+    """canonical fused mapping of a pair whose fused loops above the shared tensor agree as multisets (only when at most one side has
+       other holders between its fused loops); None when the rule does not apply"""
+    ranks = {"m": p["M"], "n0": p["ns"][0], "n1": p["ns"][1], "n2": p["ns"][2]}
+    sa, sb = split_at_shared(a_nodes, "T1", ranks), split_at_shared(b_nodes, "T1", ranks)
+    if sa is None or sb is None or sa[2] != sb[2]:
+        return None
+    (ta, ba, mem), (tb, bb, _) = sa, sb
+    la, lb = [n for n in ta if n[0] == "loop"], [n for n in tb if n[0] == "loop"]
+    if not la or sorted(la) != sorted(lb):
+        return None
+    inner = lambda t: [n for n in t if n[0] == "sto" and n[1] != "MainMemory"]  # noqa
+    if inner(ta) and inner(tb):
+        return None
+    if any(n[0] == "sto" and n[1] == "MainMemory" for n in ba + bb):
+        return None
+    top = tb if inner(tb) else ta
+    other = ta if top is tb else tb
+    mm = sorted({t for n in ta + tb if n[0] == "sto" and n[1] == "MainMemory" for t in n[2]})
+    lines = ["mapping:", "  nodes:", f"  - !Storage {{tensors: [{', '.join(mm)}], component: MainMemory}}"]
+    for n in top:
+        if n[0] == "loop":
+            lines.append(f"  - !Temporal {{rank_variable: {n[1]}, tile_shape: {n[2]}}}")
+        elif n[1] != "MainMemory":
+            lines.append(f"  - !Storage {{tensors: [{', '.join(n[2])}], component: {n[1]}}}")
+    lines += [f"  - !Storage {{tensors: [T1], component: {mem}}}", "  - !Sequential", "    nodes:"]
+    for e, bottom in (("Matmul0", ba), ("Matmul1", bb)):
+        lines += ["    - !Nested", "      nodes:"]
+        for n in bottom:
+            if n[0] == "loop":
+                lines.append(f"      - !Temporal {{rank_variable: {n[1]}, tile_shape: {n[2]}}}")
+            else:
+                lines.append(f"      - !Storage {{tensors: [{', '.join(n[2])}], component: {n[1]}}}")
+        lines.append(f"      - !Compute {{einsum: {e}, component: MAC}}")
+    return "\n".join(lines) + "\n"
+
+
+def evaluate_witness(af, evaluate_mapping, p, d, y):
+    a, w = JR.yaml_text(p)
+    (d / "wa.yaml").write_text(a)
+    (d / "ww.yaml").write_text(w)
+    (d / "wm.yaml").write_text(y)
+    cwd = os.getcwd()
+    os.chdir(d)
+    try:
+        r = evaluate_mapping(af.Spec.from_yaml(str(d / "wa.yaml"), str(d / "ww.yaml"), str(d / "wm.yaml")))
+        if any(v > 1 + 1e-9 for v in r.resource_usage().values()):
+            return None
+        return float(r.energy()), float(r.latency())
+    except Exception:  # noqa
+        return None
+    finally:
+        os.chdir(cwd)
+
+
 def run(ck):
     common.setup_impl_path()
     import accelforge as af
@@ -93,6 +198,7 @@ def run(ck):
             "exhaustive_specs": 0, "sampled_specs": 0, "table_rows": [], "ambiguous_constituents": 0, "fused_front_rows": 0, "make_errors": 0, "no_mapping_specs": 0}
     _, dist["lookahead_switched_off"] = JR.exact_join_fn()
     cap = ck.n(120, 1500)
+    accepted_w, rejected_w = [], []
     for i in range(ck.n(9, 80)):
         p = JR.gen_spec(rng, allow_three=False)
         p["gbpv"] = None
@@ -195,6 +301,7 @@ def run(ck):
             combos = [tuple(rng.randrange(s) for s in sizes) for _ in range(cap)]
             dist["sampled_specs"] += 1
         nvalid = 0
+        two = p["n"] == 2 and not p["long_lived"]
         for combo in combos:
             dist["combinations_joined"] += 1
             df = join_combo(combo)
@@ -224,6 +331,24 @@ def run(ck):
                 elif not any(all(f[k] <= w[k] + 1e-6 * max(1.0, abs(w[k])) for k in range(len(w))) for f in front):
                     bad = bad or ("a valid combination of single pmappings is not weakly dominated by any row the table join returned",
                                   {"combination": list(combo), "its_vector": dict(zip(cols, w)), "front": [list(f) for f in front[:6]]})
+        if two:
+            # (c) every pair whose fused loops above the shared tensor agree up to order (decided from the pmapping objects alone)
+            cn = [[concrete_nodes(pm, e, x[2]) for x in sing[e]] for e in names]
+            cand = []
+            for ia, na in enumerate(cn[0]):
+                for ib, nb_ in enumerate(cn[1]):
+                    if na is not None and nb_ is not None:
+                        y = witness_yaml(p, na, nb_)
+                        if y is not None:
+                            cand.append((ia, ib, y))
+            rng.shuffle(cand)
+            dist["rule_compatible_pairs"] = dist.get("rule_compatible_pairs", 0) + len(cand)
+            for ia, ib, y in cand[:ck.n(40, 200)]:
+                df = join_combo((ia, ib))
+                if df is None:
+                    rejected_w.append((p, [ia, ib], y, None))
+                elif len(accepted_w) < ck.n(12, 60):
+                    accepted_w.append((p, [ia, ib], y, JR.vectors(df, ["Total<SEP>energy", "Total<SEP>latency"])))
         if full is None and nvalid == 0:
             dist["no_mapping_specs"] += 1
         ck.case(key, nontrivial=nvalid >= 2 and len(front) >= 1,
@@ -231,6 +356,26 @@ def run(ck):
                         "front": [list(f) for f in front[:3]]})
         if bad is not None:
             ck.failing_input(dict(payload, problem=bad[0], detail=bad[1], columns=cols), what=bad[0])
+    # witnesses: first validate the constructor on pairs the join accepts, then use it on pairs the join rejects
+    from accelforge.model.main import evaluate_mapping
+    ws = {"constructor_agrees": 0, "constructor_disagrees": 0, "rejected_pairs_tried": 0, "rejected_pairs_with_valid_witness": 0}
+    for (pp, combo, y, vecs) in accepted_w[:ck.n(30, 200)]:
+        got = evaluate_witness(af, evaluate_mapping, pp, d, y)
+        if got is not None and any(JR.near(got, v, 1e-5) for v in vecs):
+            ws["constructor_agrees"] += 1
+        else:
+            ws["constructor_disagrees"] += 1
+    if ws["constructor_agrees"] >= 3 and ws["constructor_disagrees"] == 0:
+        for (pp, combo, y, _) in rejected_w[:ck.n(60, 400)]:
+            ws["rejected_pairs_tried"] += 1
+            got = evaluate_witness(af, evaluate_mapping, pp, d, y)
+            if got is not None:
+                ws["rejected_pairs_with_valid_witness"] += 1
+                ck.failing_input({"params": pp, "combination": combo, "witness_mapping_yaml": y, "witness_energy_latency": list(got),
+                                  "arch_yaml": JR.yaml_text(pp)[0], "workload_yaml": JR.yaml_text(pp)[1]},
+                                 what="the join rejects a pair of pmappings whose fused loops above the shared tensor agree up to order, although the fused mapping built from them "
+                                      f"is valid for the real model (energy, latency = {got})")
+    dist["witness_stream"] = ws
     tr = dist.pop("table_rows")
     dist["table_rows"] = {"max": max(tr or [0]), "mean": sum(tr) / max(1, len(tr))}
     return ck.finish(
